@@ -755,8 +755,9 @@ impl Scenario for ArithProg {
                 }
                 A_FE_EQ => {
                     let (x, y) = (regs[s1].clone(), regs[s2].clone());
-                    guarded(|| (x == y, x.to_bytes() == y.to_bytes())).map(|(e, same_value)| {
+                    guarded(|| (x == y, x.to_bytes() == y.to_bytes(), x != y)).map(|(e, same_value, ne)| {
                         obs.out_flag("fe_eq", e);
+                        obs.out_flag("fe_ne", ne); // the != operator is an entry point of its own (PartialEq::ne can be overridden)
                         if same_value && s1 != s2 {
                             obs.hit("probe.fe_eq_on_equal_values_in_distinct_registers");
                         }
